@@ -42,6 +42,9 @@ type SigSpec struct {
 	Groups []CsigGroup    `json:"groups,omitempty"`
 	NoAlg  bool           `json:"no_alg,omitempty"`
 	Inject bool           `json:"inject,omitempty"`
+	// TwinOf (index + 1 of an earlier signer, 0: none): the reference builder emits this entry as a byte-for-byte
+	// copy of that signer's COSE_Signature (same key, headers, encoding choices and signature)
+	TwinOf int `json:"twin_of,omitempty"`
 }
 
 // MsgSpec is a serialisable abstract message.
@@ -474,6 +477,15 @@ func (b *Builder) Build(m *MsgSpec) Built {
 	case refcose.KSign:
 		var sigItems []rc.Val
 		for i, s := range m.Sigs {
+			if s.TwinOf > 0 && s.TwinOf-1 < i {
+				if b.OnTBS != nil {
+					b.OnTBS(fmt.Sprintf("sig[%d]", i), refcose.SigStructure(pc, out.SigProts[s.TwinOf-1], ext, m.Payload))
+				}
+				out.Sigs = append(out.Sigs, out.Sigs[s.TwinOf-1])
+				out.SigProts = append(out.SigProts, out.SigProts[s.TwinOf-1])
+				sigItems = append(sigItems, sigItems[s.TwinOf-1])
+				continue
+			}
 			sp := b.protContent(withInject(s.Prot, s.Inject, s.Key.Alg))
 			where := fmt.Sprintf("sig[%d]", i)
 			sig := b.sign(s.Key, refcose.SigStructure(pc, sp, ext, m.Payload), where)
